@@ -149,7 +149,7 @@ def job_after_directive(ctx, jr, W):
                 checks.append(('the instruction of text line %d carries line %d (behind %d added instructions)' % (j + 1, j + 1, nadd), zimp(R_ok, zand(zeq(ln.d, 1), zeq(ln.p[1][0], j + 1)))))
             else: checks.append(('the instruction of text line %d exists' % (j + 1), znot(R_ok)))
         for msg, c in checks: e.obligations.append(Obligation(rs.g, c, 'C08 directive: ' + msg, 'assert', 'oracle'))
-        def extract(m, o=None): return dict(kind='c08_directive', lines=[solve.model_str(m, l) for l in lines[1:]], expect=o.msg if o else '')
+        def extract(m, o=None, text=text): return dict(kind='c08_directive', text=solve.model_str(m, text), lines=[solve.model_str(m, l) for l in lines[1:]], expect=o.msg if o else '')
         res = solve.discharge(e)
         process_failed(jr, e, res, extract)
         witness(jr, e, 'two command lines behind the directive', zand(rs.g, R_ok, lines[1].len >= 1, lines[2].len >= 1), extract)
@@ -248,7 +248,7 @@ def replayer(v):
     if v.get('kind') == 'c08_directive':
         # natively the directive includes a real file with 0, 1 or 2 lines; the lines of the including file keep their own numbers
         for inc in ('', 'a\n', 'a\nb\n'):
-            out = H.replay(dict(mode='parse_file', files={'main.ds': '!include_files inc.ds\n' + '\n'.join(v['lines']) + '\n', 'inc.ds': inc}, entry='main.ds')); v['native'] = out
+            out = H.replay(dict(mode='parse_file', files={'main.ds': v['text'].replace('!include_files x', '!include_files inc.ds', 1) if v.get('text') else '!include_files inc.ds\n' + '\n'.join(v['lines']) + '\n', 'inc.ds': inc}, entry='main.ds')); v['native'] = out
             if out.get('panic'): return (True, 'native panic')
             if not out.get('ok'): continue
             own = [i for i in out['instructions'] if (i.get('source') or '').endswith('main.ds')]
